@@ -194,7 +194,7 @@ theorem ld_handleFind (s : Stack) (e : SDEntry) (a : Addr) (mc : Bool) (hi : LD 
   unfold handleFind; simp only []
   split; exact hi
   split
-  · exact ld_foldl _ (fun X i hX => ld_callLater _ _ _ hX) _ _ (ld_draw _ _ _ hi)
+  · exact ld_foldl _ (fun X i hX => ld_callLater (X.logAnswer _ _ _) _ _ hX) _ _ (ld_draw _ _ _ hi)
   · exact ld_foldl _ (fun X i hX => ld_callSoon X _ hX) _ _ hi
 
 theorem ld_expiredSub (s : Stack) (i : Nat) (a : Addr) (k : SubKey) (hi : LD s) : LD (s.expiredSub i a k) := by
